@@ -9,6 +9,8 @@ import EaselModel.Random.Replay
 import EaselModel.Random.Dump
 import EaselModel.Generated.RandTables
 import EaselModel.Random.Consts
+import EaselModel.Random.UniPosTerm
+import EaselModel.Random.LcgTerm
 /-! # C09 — property theorems (statements + glue only; lemmas live in Random/*.lean)
 
 Every theorem quantifies over all seeds / all stream positions / all states; none is bounded. -/
@@ -105,6 +107,13 @@ theorem rand64_double_ranges (x : UInt64) :
     simp only [UInt64.reduceToNat, Nat.reduceMod, Nat.shiftRight_eq_div_pow]
     omega
   simp only [dblNum, dblOpenNum]
+  omega
+
+/-- `esl_rand64_int64` = `x >> 1` ∈ `0..2^63-1` (a non-negative `int64_t`) for every raw word -/
+theorem rand64_int64_range (x : UInt64) : (x >>> 1).toNat < 2 ^ 63 := by
+  rw [UInt64.toNat_shiftRight]
+  have := UInt64.toNat_lt x
+  simp only [UInt64.reduceToNat, Nat.reduceMod, Nat.shiftRight_eq_div_pow]
   omega
 
 /-- a deal of `m` from `n` (exact-arithmetic acceptance test) is exactly `m` strictly increasing values in `0..n-1`,
@@ -418,5 +427,76 @@ theorem dump_prefix_out_of_bounds (seed : UInt32) : ((Rng.create .mersenne seed)
 example : TablesOK ⟨Array.replicate 32 0, Array.replicate 31 0, Array.replicate 31 0, Array.replicate 31 0⟩ :=
   ⟨by simp, by simp, by simp, by simp⟩
 example : (0:ℝ) < 0.5 ∧ ([0.5, 2] : List ℝ) ≠ [] := ⟨by norm_num, by simp⟩
+
+/-! ## The rejection loops of `esl_rnd_Roll`, `esl_rand64_Roll`, `esl_rnd_UniformPositive` terminate for EVERY seed
+
+Not a probability-1 statement and not a computation over seeds.  A rejected raw word of a roll has its top bit set (for every `n`);
+the top bit of the tempered output is the XOR of four state bits; the refill recurrence, read bit by bit, makes every state bit
+sequence a solution of ONE linear recurrence `ψ(E) s = 0` over GF(2) with `ψ(1) = 1` (the top bit of the twist constant) and
+`deg ψ ≤ 19998` (`Random/LinRec.lean`) — so the top output bit cannot be 1 at 19999 consecutive positions.  For a general word
+stream the loops do not terminate (they keep their fuel in the model); for these generators fuel 19999 (Mersenne Twisters),
+`2^31 + 1` (LCG: `x ↦ 69069x+1` iterated `2^31` times is `x ↦ x + 2^31`), 624 / 2 (UniformPositive) always suffices. -/
+
+/-- MT19937 / MT19937-64, every seed, every stream position `k`: one of the next 19999 outputs has its top bit clear -/
+theorem mt_top_bit_clear_within (seed : UInt32) (seed64 : UInt64) (k : Nat) :
+    (∃ i, i ≤ 19998 ∧ (temper32 (ref P32 seed (624 + k + i))).toNat < 2 ^ 31) ∧
+    (∃ i, i ≤ 19998 ∧ (temper64 (ref P64 seed64 (312 + k + i))).toNat < 2 ^ 63) :=
+  ⟨mt32_top_clear_within seed (624 + k), mt64_top_clear_within seed64 (312 + k)⟩
+
+/-- such a word is accepted by every roll: the rejected words of `esl_rnd_Roll(n)` / `esl_rand64_Roll(n)` all have the top bit set -/
+theorem roll_accepts_top_clear (n x : Nat) (hn : 0 < n) :
+    (n < 2 ^ 32 → x < 2 ^ 31 → ∃ v, rollWord n x = some v) ∧ (n < 2 ^ 64 → x < 2 ^ 63 → ∃ v, rollWord64 n x = some v) :=
+  ⟨fun h hx => rollWord_small n x hn h hx, fun h hx => rollWord64_small n x hn h hx⟩
+
+/-- `esl_rnd_Roll` on the Mersenne Twister: after `esl_randomness_Init(r, seed)` on a generator of any history and ANY seed, and
+    any number `k` of draws, a roll of any `0 < n < 2^32` returns (a value `< n`) within 19999 draws -/
+theorem roll_terminates_mt19937 (r0 : Rng) (hk : r0.kind = .mersenne) (seed : UInt32) (k n : Nat) (hn : 0 < n) (hn' : n < 2 ^ 32)
+    (fuel : Nat) (hf : 19999 ≤ fuel) : ∃ v r', ((r0.initWith seed).draws k).2.roll n fuel = some (v, r') ∧ v < n := by
+  have hs := Rng.onStream_draws _ seed 0 (Rng.onStream_initWith r0 hk seed) k
+  obtain ⟨v, r', h⟩ := Rng.roll_terminates_onStream _ seed _ hs n hn hn' fuel hf
+  exact ⟨v, r', h, roll_lt _ n fuel v r' h⟩
+
+/-- the same for every state on the stream of a seed, and a roll / a positive uniform leaves the generator on that stream (further
+    on), so the statement covers histories that interleave draws, rolls and `UniformPositive` calls in any order -/
+theorem roll_terminates_on_stream (r : Rng) (seed : UInt32) (k : Nat) (h : r.OnStream seed k) (n : Nat) (hn : 0 < n) (hn' : n < 2 ^ 32)
+    (fuel : Nat) (hf : 19999 ≤ fuel) :
+    ∃ v r' k', r.roll n fuel = some (v, r') ∧ v < n ∧ k < k' ∧ r'.OnStream seed k' := by
+  obtain ⟨v, r', hr⟩ := Rng.roll_terminates_onStream r seed k h n hn hn' fuel hf
+  obtain ⟨k', h1, _, h3⟩ := Rng.onStream_roll seed n fuel r k v r' h hr
+  exact ⟨v, r', k', hr, roll_lt _ n fuel v r' hr, h1, h3⟩
+
+/-- `esl_rnd_Roll` on the legacy LCG, every state: within `2^31 + 1` draws -/
+theorem roll_terminates_fast (r : Rng) (hk : r.kind = .fast) (n : Nat) (hn : 0 < n) (hn' : n < 2 ^ 32) (fuel : Nat)
+    (hf : 2 ^ 31 + 1 ≤ fuel) : ∃ v r', r.roll n fuel = some (v, r') ∧ v < n := by
+  obtain ⟨v, r', h⟩ := Rng.roll_terminates_fast r hk n hn hn' fuel hf
+  exact ⟨v, r', h, roll_lt _ n fuel v r' h⟩
+
+/-- `esl_rand64_Roll`: after `esl_rand64_Create/Init(seed)` for ANY seed and any number of draws, within 19999 draws -/
+theorem roll64_terminates (seed : UInt64) (k n : Nat) (hn : 0 < n) (hn' : n < 2 ^ 64) (fuel : Nat) (hf : 19999 ≤ fuel) :
+    ∃ v r' k', ((Rng64.create seed).draws k).2.roll n fuel = some (v, r') ∧ v < n ∧ r'.OnStream seed k' := by
+  have hs := Rng64.onStream_draws _ seed 0 (Rng64.onStream_create seed) k
+  obtain ⟨v, r', h⟩ := Rng64.roll_terminates_onStream _ seed _ hs n hn hn' fuel hf
+  obtain ⟨k', _, _, h3⟩ := Rng64.onStream_roll seed n fuel _ _ v r' hs h
+  exact ⟨v, r', k', h, Rng64.roll_lt n fuel _ v r' h, h3⟩
+
+/-- `esl_rnd_UniformPositive`: for every NON-ZERO seed (the seeds the library uses: 0 is replaced, `seed0_nonzero32`) and any
+    history of draws, at most 623 zero draws are rejected (a table of 624 zero words is a fixed point of the refill but is not
+    reachable from `mt[1] = 69069·seed ≠ 0`); on the LCG at most one -/
+theorem uniformPositive_terminates (r0 : Rng) (seed : UInt32) (hs : seed ≠ 0) (k fuel : Nat) (hf : 624 ≤ fuel) :
+    ∃ x r', ((r0.initWith seed).draws k).2.uniformPositive fuel = some (x, r') ∧ 0 < x ∧ x < 2 ^ 32 := by
+  cases hk : r0.kind with
+  | mersenne =>
+    have hst := Rng.onStream_draws _ seed 0 (Rng.onStream_initWith r0 hk seed) k
+    obtain ⟨x, r', h⟩ := Rng.uniPos_terminates_onStream _ seed hs _ hst fuel hf
+    exact ⟨x, r', h, uniformPositive_pos _ fuel x r' h⟩
+  | fast =>
+    have hkk := Rng.draws_kind_fast _ k ((Rng.initWith_kind r0 seed).trans hk)
+    obtain ⟨x, r', h⟩ := Rng.uniPos_terminates_fast _ hkk fuel (by omega)
+    exact ⟨x, r', h, uniformPositive_pos _ fuel x r' h⟩
+
+/-! non-vacuity: the hypotheses are satisfiable (`n = 6`, `seed = 42`), and the bound is about a real phenomenon: the all-zero
+    table IS a fixed point of the refill (it is only unreachable), so no bound can hold for an arbitrary table content -/
+example : (0 : Nat) < 6 ∧ 6 < 2 ^ 32 ∧ (42 : UInt32) ≠ 0 ∧ (19999 : Nat) ≤ 1000000 := by decide
+example : twist32 0 0 0 = 0 ∧ temper32 0 = 0 := by decide
 
 end EaselModel.Props.C09
